@@ -315,35 +315,57 @@ def onacceptTcp (family : Nat) (ip : Text) (port : Int) (sockPort : Int) (isl : 
 inductive UdpEv
   | open_ (chan : Nat) (payload : Bytes)   -- `mux.send(chan, CMD_UDP_OPEN, b"%d" % listener.family)`
   | data (chan : Nat) (payload : Bytes)    -- `mux.send(chan, CMD_UDP_DATA, hdr + data)`
+  | close (chan : Nat)                     -- `mux.send(chan, CMD_UDP_CLOSE, b'')` (expiry)
   | raised                                 -- UnicodeEncodeError
 deriving Repr, DecidableEq
 
-/-- `udp_by_src`: source key ↦ channel (the expiry time is left out: the model covers
-datagrams within one association lifetime). -/
-abbrev UdpTable := List (Nat × Nat)
+/-- One entry of `udp_by_src`: source key ↦ `(chan, timeout)`. -/
+structure UdpEntry where
+  src : Nat
+  chan : Nat
+  deadline : Nat
+deriving Repr, DecidableEq
+
+/-- `udp_by_src` in insertion order (a Python dict). -/
+abbrev UdpTable := List UdpEntry
 
 def UdpTable.find (t : UdpTable) (src : Nat) : Option Nat :=
   match t with
   | [] => none
-  | (s, c) :: r => if s = src then some c else UdpTable.find r src
+  | e :: r => if e.src = src then some e.chan else UdpTable.find r src
 
-/-- `onaccept_udp` after `method.recv_udp` returned `(srcip, dstip, data)` (client.py:551-566,
+/-- `udp_by_src[src] = chan, deadline`: an existing key keeps its place, a new one goes last. -/
+def UdpTable.set (t : UdpTable) (src chan deadline : Nat) : UdpTable :=
+  match t with
+  | [] => [⟨src, chan, deadline⟩]
+  | e :: r => if e.src = src then ⟨src, chan, deadline⟩ :: r else e :: UdpTable.set r src chan deadline
+
+/-- The UDP half of `expire_connections(now, mux)`: every entry with `timeout < now` gets a
+`UDP_CLOSE` and is removed. -/
+def expireUdp (now : Nat) (t : UdpTable) : UdpTable × List UdpEv :=
+  (t.filter fun e => !(decide (e.deadline < now)),
+   (t.filter fun e => decide (e.deadline < now)).map fun e => .close e.chan)
+
+/-- `onaccept_udp` after `method.recv_udp` returned `(srcip, dstip, data)` (client.py:551-568,
 with the no-free-id return of fix 7d459d6).  `src` identifies the source `(ip, port)` tuple;
-`fresh = mux.next_channel()` is consulted only for an unknown source.  The header is built from
-*this* datagram's destination. -/
+`fresh = mux.next_channel()` is consulted only for an unknown source; `now = time.time()`.
+The header is built from *this* datagram's destination; the association is refreshed to
+`now + 30` before the expiry sweep, so the sweep never closes the association just used. -/
 def onacceptUdp (tbl : UdpTable) (family : Nat) (src : Nat) (ip : Text) (port : Int) (data : Bytes)
-    (fresh : Option Nat) : UdpTable × List UdpEv :=
+    (fresh : Option Nat) (now : Nat) : UdpTable × List UdpEv :=
+  let go (chan : Nat) (pre : List UdpEv) : UdpTable × List UdpEv :=
+    let tbl1 := tbl.set src chan (now + C05.UDP_TIMEOUT)
+    if isAscii ip then
+      let r := expireUdp now tbl1
+      (r.1, pre ++ .data chan (encodeUdp ip port data) :: r.2)
+    else (tbl1, pre ++ [.raised])
   match tbl.find src with
-  | some chan =>
-    if isAscii ip then (tbl, [.data chan (encodeUdp ip port data)]) else (tbl, [.raised])
+  | some chan => go chan []
   | none =>
     match fresh with
     | none => (tbl, [])
     | some 0 => (tbl, [])
-    | some chan =>
-      let tbl' := (src, chan) :: tbl
-      if isAscii ip then (tbl', [.open_ chan (decNat family), .data chan (encodeUdp ip port data)])
-      else (tbl', [.open_ chan (decNat family), .raised])
+    | some chan => go chan [.open_ chan (decNat family)]
 
 /-! ## Server: `new_channel`, `udp_req` -/
 
